@@ -1,7 +1,7 @@
 #!/bin/bash
-# usage: import_seed.sh <prop id> <n>  — takes a sub-agent's deliverables from /tmp/seedwork7/out-<id>/ into /verif/seeded/<id>-<n>/,
+# usage: import_seed.sh <prop id> <n>  — takes a sub-agent's deliverables from /tmp/seedwork8/out-<id>/ into /verif/seeded/<id>-<n>/,
 # writes meta.json, and confirms it against /repo's HEAD (tools/reconfirm_seeds.sh); removes it again if it is not confirmed.
-id=$1; n=$2; src=/tmp/seedwork7/out-$id; dest=/verif/seeded/$id-$n
+id=$1; n=$2; src=/tmp/seedwork8/out-$id; dest=/verif/seeded/$id-$n
 [ -f $src/patch.diff ] || { echo "$id: no patch.diff"; exit 1; }
 mkdir -p $dest; cp $src/patch.diff $src/zz_seed_demo_test.go $src/demo.txt $src/notes.md $dest/ 2>/dev/null
 python3 - "$dest" "$id-$n" <<'PY'
